@@ -25,7 +25,9 @@ endif
 # EXTRA_DEFS: build variant (./check builds a second set of binaries with -DNDEBUG under $(BUILD)/nd: the library's and the
 # header macros' assert()s compiled out, as in a release build of the library)
 EXTRA_DEFS ?=
-COMMON  := -O1 -g $(DWARF) $(SAN) $(INITPAT) $(GUARD) $(EXTRA_DEFS) -DSYSTEM_ENDIANNESS_LITTLE -DUFW_USE_BUILTIN_SWAP -D_DEFAULT_SOURCE
+# the CMake option UFW_USE_BUILTIN_SWAP (default ON); the twin build turns it off, so that the portable byte-swap code runs too
+SWAPDEF ?= -DUFW_USE_BUILTIN_SWAP
+COMMON  := -O1 -g $(DWARF) $(SAN) $(INITPAT) $(GUARD) $(EXTRA_DEFS) -DSYSTEM_ENDIANNESS_LITTLE $(SWAPDEF) -D_DEFAULT_SOURCE
 INC     := -I$(BUILD)/cfg/include -I$(UFW_SRC)/include
 CFLAGS  := -std=gnu99 $(COMMON) $(INC) -Wall -Wextra -Wno-unused-parameter
 # ufw/compat/ssize-t.h has an unbalanced extern "C" brace under C++ when sys/types.h exists: bypass it
@@ -45,12 +47,13 @@ SIMHDR    := $(wildcard $(ROOT)/sim/*.hpp)
 .SECONDARY:
 .PHONY: setup all clean
 setup all: $(BINS)
-# the default build also builds its release-build twin (assert() compiled out) under $(BUILD)/nd
+# the default build also builds its twin under $(BUILD)/nd: the library's other configuration (release build: assert() compiled
+# out; UFW_USE_BUILTIN_SWAP off)
 ifeq ($(EXTRA_DEFS)$(PLAIN),)
 .PHONY: nd
 setup all: nd
 nd:
-	@$(MAKE) -s -C $(ROOT) UFW_SRC=$(UFW_SRC) BUILD=$(BUILD)/nd EXTRA_DEFS=-DNDEBUG all
+	@$(MAKE) -s -C $(ROOT) UFW_SRC=$(UFW_SRC) BUILD=$(BUILD)/nd EXTRA_DEFS=-DNDEBUG SWAPDEF= all
 endif
 
 TOOLCHAIN_H := $(BUILD)/cfg/include/ufw/toolchain.h
